@@ -1,15 +1,21 @@
 package main
 
 import (
+	"crypto"
+	"crypto/rsa"
+	"crypto/sha256"
 	"errors"
 	"fmt"
 	"net/http"
 	"net/http/httptest"
+	"os"
+	"path/filepath"
 	"strconv"
 	"strings"
 	"sync"
 	"time"
 
+	_ "modernc.org/sqlite"
 	"shanhu.io/g/aries"
 	"shanhu.io/g/identity"
 	"shanhu.io/g/jwt"
@@ -18,6 +24,7 @@ import (
 	"shanhu.io/g/signer"
 	"shanhu.io/g/signin/authgate"
 	"shanhu.io/g/signin/signinapi"
+	"shanhu.io/g/sqlx"
 	"shanhu.io/g/timeutil"
 )
 
@@ -393,12 +400,57 @@ func (r *run) algCross() {
 				Facts{Genuine: false, InTime: true, Consent: true}, err == nil, nil, "")
 		}
 	}
+	// a token signed with the genuine RSA key whose header names another algorithm (a signer configured
+	// with Alg "HS256" writes such headers): the RS256 verifier takes RS256 only
+	for _, alg := range []string{"HS256", "none", "rs256", "RS256 ", "RS512", ""} {
+		hs := b64([]byte(`{"alg":` + string(mustJSON(alg)) + `,"typ":"JWT","kid":"k0"}`))
+		txt := hs + "." + parts[1]
+		h := sha256.Sum256([]byte(txt))
+		sig, err := rsa.SignPKCS1v15(nil, rsaPri[0], crypto.SHA256, h[:])
+		if err != nil {
+			panic(err)
+		}
+		r.jwtRSCase(ks, valid, []byte(txt+"."+b64(sig)), true, user, host, &Mut{Tok: tokid, Class: "alg-cross", Arg: "rsa-signed, alg=" + alg})
+		r.jwtRSCase(ks, valid, []byte(txt+"."+b64(sig)), false, "", "", &Mut{Tok: tokid, Class: "alg-cross", Arg: "rsa-signed, alg=" + alg})
+	}
+	hsKeyCard := []cardKey{{ID: "k0", Type: "ssh-rsa", Alg: jwt.AlgHS256, Key: fixedKeys[0].Pub, NVA: T + 3600}}
+	if t2, err := identity.SignSelf(ctx, coreOf(hsKeyCard, []string{fixedKeys[0].Pri}, T*ns), user, host, time.Unix(T, 0)); err == nil {
+		r.jwtRSCase(hsKeyCard, valid, []byte(t2), true, user, host, &Mut{Tok: tokid, Class: "alg-cross", Arg: "issued by a signer whose key says HS256"})
+	}
 	// an HS256 token, keyed with whatever the attacker knows, at the RS256 verifier, with and without a signature
 	for _, alg := range []string{"HS256", "none", "hs256", "RS256 ", "rs256", ""} {
 		hs := b64([]byte(`{"alg":` + string(mustJSON(alg)) + `,"typ":"JWT","kid":"k0"}`))
 		txt := hs + "." + parts[1]
 		for _, sig := range []string{b64(hmacSum([]byte(fixedKeys[0].Pub), []byte(txt))), "", parts[2]} {
 			r.jwtRSCase(ks, valid, []byte(txt+"."+sig), true, user, host, &Mut{Tok: tokid, Class: "alg-cross", Arg: alg})
+		}
+	}
+}
+
+// epochKeys: key validity around the Unix epoch: NotValidBefore <= 0 means "no
+// start", 1 is a start; instants just before and after second 0 and 1.
+func (r *run) epochKeys() {
+	initRSA()
+	const ns = int64(time.Second)
+	const user, host = "robot", "example.com"
+	hj := `{"alg":"RS256","typ":"JWT","kid":"k"}`
+	cj := mustJSON(map[string]interface{}{"iss": ".", "sub": user, "aud": host, "iat": -1000, "exp": 1000})
+	txt := b64([]byte(hj)) + "." + b64(cj)
+	h := sha256.Sum256([]byte(txt))
+	sig, err := rsa.SignPKCS1v15(nil, rsaPri[0], crypto.SHA256, h[:])
+	if err != nil {
+		panic(err)
+	}
+	tok := []byte(txt + "." + b64(sig))
+	tokid := r.ntok
+	r.ntok++
+	for _, nvb := range []int64{0, 1, -1, -5, 2} {
+		for _, nva := range []int64{500, 0, -1} {
+			ks := []cardKey{{ID: "k", Type: "ssh-rsa", Alg: jwt.AlgRS256, Key: fixedKeys[0].Pub, NVA: nva, NVB: nvb}}
+			for _, now := range []int64{-5*ns - 1, -ns, -1, 0, 1, ns - 1, ns, 2*ns - 1, 2 * ns, 500 * ns, 500*ns + 1} {
+				r.jwtRSCaseOn(cardOf(ks), nil, "usage-epoch", ks, now, tok, false, "", "",
+					&Mut{Tok: tokid, Class: "kidmatrix", Arg: "epoch", Same: true})
+			}
 		}
 	}
 }
@@ -524,6 +576,51 @@ func (r *run) passRoles() {
 	r.passStep(b, o, try(1, T+33, 8), nil) // used
 	r.emit(u.c)
 	r.emit(o.c)
+
+	// two Roles handles over one sqlite file, which is closed and opened again in the middle: the
+	// record (code, window, counter, used flag) lives on disk, not in a handle
+	func() {
+		dir, err := os.MkdirTemp("", "c16-roles")
+		if err != nil {
+			panic(err)
+		}
+		defer os.RemoveAll(dir)
+		open := func(create bool) (*sqlx.DB, *roles.Roles) {
+			db, err := sqlx.OpenSqlite3(filepath.Join(dir, "db"))
+			if err != nil {
+				panic(err)
+			}
+			tables := pisces.NewTables(db)
+			b := roles.New(tables)
+			if create {
+				if err := tables.Create(); err != nil {
+					panic(err)
+				}
+			}
+			b.SetPassCodeExpiry(time.Duration(10 * min))
+			return db, b
+		}
+		db1, b1 := open(true)
+		b2 := roles.New(pisces.NewTables(db1))
+		b2.SetPassCodeExpiry(time.Duration(10 * min))
+		pr := r.passRoleNew(b1, st, "user", 10*min, nil)
+		r.passStep(b1, pr, nw(T), nil)
+		for i := 0; i < 6; i++ {
+			r.passStep([]*roles.Roles{b2, b1}[i%2], pr, try(-1-i, T+1+int64(i), 1), nil)
+		}
+		db1.Close()
+		db2, b3 := open(false) // "restart"
+		defer db2.Close()
+		for i := 6; i < 11; i++ {
+			r.passStep(b3, pr, try(-1-i, T+1+int64(i), 1), nil)
+		}
+		r.passStep(b3, pr, try(1, T+20, 2), nil) // too many: the attempts before the restart count
+		r.passStep(b3, pr, nw(T+30), nil)
+		b4 := roles.New(pisces.NewTables(db2))
+		r.passStep(b4, pr, try(2, T+31, 3), nil)
+		r.passStep(b3, pr, try(2, T+32, 4), nil) // used, seen through the other handle
+		r.emit(pr.c)
+	}()
 
 	// a role removed and created again: record, counter and code are gone
 	for variant := 0; variant < 3; variant++ {
